@@ -11,9 +11,10 @@ ids = sys.argv[3:] if mode == "set" else sys.argv[2:]
 for i in ids:
     p = root / i / "meta.json"
     m = json.loads(p.read_text())
+    key = "known_miss" if not i.startswith("twin-") else "known_limit"        # (a defect the checks do not report / a twin they alarm on)
     if mode == "set":
-        m["known_limit"] = sys.argv[2]
+        m[key] = sys.argv[2]
     else:
-        m.pop("known_limit", None)
+        m.pop(key, None)
     p.write_text(json.dumps(m, indent=1) + "\n")
 print(mode, len(ids))
